@@ -242,6 +242,9 @@ func fnGetSet(ctx *cmdContext, args map[string]any) (output respValue, err error
 // largest product of the two string lengths LCS works on
 const maxLcsCells = 1 << 24
 
+// largest sum of the two string lengths (the depth the search can recurse to)
+const maxLcsDepth = 1 << 20
+
 func fnLcs(ctx *cmdContext, args map[string]any) (output respValue, err error) {
 	keyName1 := args["key1"].(string)
 	keyName2 := args["key2"].(string)
@@ -271,7 +274,9 @@ func fnLcs(ctx *cmdContext, args map[string]any) (output respValue, err error) {
 
 	// the search keeps one table cell per pair of positions: refuse what cannot be held,
 	// as redis does for its own table
-	if uint64(len(*vals[0]))*uint64(len(*vals[1])) > maxLcsCells {
+	// (the search also recurses once per position of either string: a one-byte value against
+	// 16 MB passes the cell limit and overflows the stack)
+	if uint64(len(*vals[0]))*uint64(len(*vals[1])) > maxLcsCells || len(*vals[0])+len(*vals[1]) > maxLcsDepth {
 		output.data = respErrorString("ERR Insufficient memory, transient memory for LCS exceeds proto-max-bulk-len")
 		return
 	}
